@@ -139,7 +139,7 @@ USED = {
     'index': {'d0': 9, 'd1': 9}, 'range': {'d0': 8, 'e0': 1, 'e1': 9}, 'count': {'d0': 9, 'd1': 9}, 'offset': {'d0': 8, 'e0': 1, 'e1': 2, 'd2': 3},
     'write': {'d0': 8, 'e0': 1, 'e1': 2, 'd2': 3}, 'write_cast': {'d0': 3, 'd1': 1, 'e0': 1, 'e1': 2, 'd2': 3},
     'numeric': {'h0': 21, 'h1': 1, 'd0': 1, 'd1': 1, 'e0': 1, 'd2': 1}, 'numeric_json': {'d0': 1, 'd1': 1, 'e1': 9, 'd2': 1},
-    'write_frag_offset': {'d0': 4, 'd1': 2, 'e0': 1, 'e1': 2},
+    'write_frag_offset': {'d0': 4, 'd1': 2, 'e0': 1, 'e1': 2}, 'write_cast_dot': {'d0': 4, 'e0': 2, 'e1': 5},
 }
 
 
@@ -164,6 +164,16 @@ def do_text(form, d0, d1, d2, e0, e1, h0, h1):
     elif form == 'write_cast':
         text = 'Sub.Tag[%s] = (DINT) -%s' % (num([d0, d1]), num([e0, e1, d2]))
         exp = dict(path=[{'symbolic': 'Sub'}, {'symbolic': 'Tag'}, {'element': A}], elements=1, method='write', data=[-val([e0, e1, d2])], tag_type=parser.DINT.tag_type)
+    elif form == 'write_cast_dot':              # values spelled with a '.', under an explicit (TYPE) cast / with none
+        cast = ('(LREAL)', '(REAL)', '(SSTRING)', '', '(STRING) ')[d0 % 5]
+        if 'STRING' in cast:
+            text = 'Tag = %s"a%s.%sb"' % (cast, num([e0]), num([e1]))
+            data = ['a%s.%sb' % (num([e0]), num([e1]))]
+        else:
+            text = 'Tag = %s%s.%s' % (cast, num([e0]), num([e1]))
+            data = [e0 + e1 / 10.0]
+        typ = (parser.LREAL, parser.REAL, parser.SSTRING, parser.REAL, parser.STRING)[d0 % 5]
+        exp = dict(path=[{'symbolic': 'Tag'}], elements=1, method='write', data=data, tag_type=typ.tag_type)
     elif form == 'numeric':
         hx = HEX[h0 % 22] + HEX[h1 % 22]
         text = '@0x%s/%s/%s[%s]' % (hx, num([d0, d1]), num([e0]), num([d2]))
@@ -187,15 +197,15 @@ def do_text(form, d0, d1, d2, e0, e1, h0, h1):
     return got == exp
 
 
-for form in ('index', 'range', 'count', 'offset', 'write', 'write_cast', 'numeric', 'numeric_json', 'write_frag_offset'):
+for form in ('index', 'range', 'count', 'offset', 'write', 'write_cast', 'write_cast_dot', 'numeric', 'numeric_json', 'write_frag_offset'):
     define(globals(), 'C12', 'text_%s' % form, ['d0', 'd1', 'd2', 'e0', 'e1', 'h0', 'h1'], "return do_text(%r, d0, d1, d2, e0, e1, h0, h1)" % form,
            [" and ".join('0 <= %s <= %d' % (n, USED[form].get(n, 0)) for n in ('d0', 'd1', 'd2', 'e0', 'e1', 'h0', 'h1'))],
-           tier='quick' if form in ('range', 'write', 'numeric', 'offset') else 'thorough', timeout=3000, path_timeout=60,
+           tier='quick' if form in ('range', 'write', 'write_cast_dot', 'numeric', 'offset') else 'thorough', timeout=3000, path_timeout=60,
            drives=['cpppo.server.enip.client.parse_operations', 'cpppo.server.enip.device.parse_path_elements', 'cpppo.server.enip.device.parse_path_component',
                    'cpppo.server.enip.device.parse_int', 'cpppo.server.enip.client.CIP_TYPES validators'],
            bounds="operation text form %r spelled from symbolic decimal / hex DIGITS (leading zeros included): the parsed operation has exactly the "
                   "spelled path segments, element, count, offset, type and values (int() realises the text: solver-enumerated)" % form,
-           outside='longer numbers; REAL/STRING values')
+           outside='longer numbers; other REAL/STRING values than the one-digit.one-digit ones of write_cast_dot')
 
 
 def do_format(c, i, a, e, cnt, symbolic):
